@@ -35,6 +35,24 @@ theorem chunking_independent_frames (r : Rd) (σ : List Nat) (fuel : Nat) :
   rw [readAll_ws Sites.current (by decide)]
   exact ⟨rfl, rfl⟩
 
+/-- **chunking_independent on the current code**: the regenerated call-site table says every
+    header and frame buffer is filled with full-read semantics (this line stops type-checking as
+    soon as one of them becomes a bare `Read` again). -/
+theorem chunking_independent_current (data : Bytes) (σ₁ σ₂ : List Nat) (fuel : Nat) :
+    (open_ Sites.current { data := data, sched := σ₁ }).2 = (open_ Sites.current { data := data, sched := σ₂ }).2 ∧
+    (readAll Sites.current fuel (open_ Sites.current { data := data, sched := σ₁ }).1).1
+      = (readAll Sites.current fuel (open_ Sites.current { data := data, sched := σ₂ }).1).1 ∧
+    (readAll Sites.current fuel (open_ Sites.current { data := data, sched := σ₁ }).1).2.1
+      = (readAll Sites.current fuel (open_ Sites.current { data := data, sched := σ₂ }).1).2.1 :=
+  chunking_independent Sites.current (by decide) (by decide) (by decide) (by decide) data σ₁ σ₂ fuel
+
+-- non-vacuity: a valid stream opened under the one-byte schedule and under "all at once"
+example :
+    let s := encStream [0#8, 0#8] [{ flags := 0, nrec := 1, body := [5#8] }]
+    (match (open_ Sites.current { data := s, sched := List.replicate 40 1 }).2 with | .ok b => b | .error _ => []) = [0#8, 0#8] ∧
+    (readAll Sites.current 5 (open_ Sites.current { data := s, sched := List.replicate 40 1 }).1).1 = [(1, 0)] := by
+  with_unfolding_all decide
+
 /-- the current call-site table, as regenerated from the source: -/
 theorem current_sites :
     Sites.current = { fixedHdrSignatureFull := Gen.fixedHdrSignatureFull,
